@@ -141,7 +141,9 @@ func (g *c20Gen) claim() *c20Claim {
 		c.ProofLER[i] = crypto.Keccak256Hash([]byte{c.Seed, 3, byte(i)})
 		c.ProofRER[i] = crypto.Keccak256Hash([]byte{c.Seed, 4, byte(i)})
 	}
-	ml := choose.Pick(g.ch, []int{0, 1, 32, 100}, "metaLen")
+	// lengths around the sizes where the calldata reaches fixed offsets of the other ABI generation (a claim call has one or
+	// two 32x32-byte proofs in front of its remaining arguments)
+	ml := choose.Pick(g.ch, []int{0, 1, 32, 100, 100, 704, 705, 736, 1400, 2100}, "metaLen")
 	c.Metadata = make([]byte, ml)
 	for i := range c.Metadata {
 		c.Metadata[i] = c.Seed + byte(i)
